@@ -45,7 +45,7 @@ func (cx *Ctx) endpointTable(fn *ssa.Function) (map[string]map[string]bool, []st
 						vf.resolve(c.Call.Args[0], func(e ssa.Value) {
 							if ld, isLd := e.(*ssa.UnOp); isLd && ld.Op == token.MUL {
 								if fa, isFA := ld.X.(*ssa.FieldAddr); isFA && fieldOwner(fa.X.Type()) == "provider.Endpoints" {
-									ep = fieldVar(fa.X.Type(), fa.Field).Name()
+									ep = fname(fieldVar(fa.X.Type(), fa.Field))
 								}
 							}
 						}, map[ssa.Value]bool{}, 0)
@@ -225,7 +225,7 @@ func checkC11(cx *Ctx, r *Report) {
 		if ni := w.Func("provider.NewIdentityProvider"); ni != nil {
 			ok := false
 			for _, st := range fx.info(ni).stores {
-				if fa, isFA := st.Addr.(*ssa.FieldAddr); isFA && fieldOwner(fa.X.Type()) == "provider.IdentityProvider" && fieldVar(fa.X.Type(), fa.Field).Name() == "conf" && fx.T(fx.path(st.Val)) == "<provider.IdentityProviderConfig>" {
+				if fa, isFA := st.Addr.(*ssa.FieldAddr); isFA && fieldOwner(fa.X.Type()) == "provider.IdentityProvider" && fname(fieldVar(fa.X.Type(), fa.Field)) == "conf" && fx.T(fx.path(st.Val)) == "<provider.IdentityProviderConfig>" {
 					ok = true
 				}
 			}
